@@ -351,7 +351,8 @@ CHECKS["C19"] = {
              "closed once the winning Set / Close returned; every Wait returns (no lost wake-up: no goroutine left blocked with nothing enabled); no panic. "
              "stress: 1..4 setters (each with its own non-nil error) and 1..4 observers on real goroutines, 50..400 fresh signals per case; observers poll Get / IsSet+Err / the channel until they see the signal set, then Wait; "
              "exactly one Set returns true, an observer never sees 'set' with a nil error nor any error but the winner's, a closed channel implies a visible error (the interleavings inside the lock-free fast paths, which have no scheduling point). "
-             "Non-trivial: every enumerated program; a random case with >= 4 scheduling steps; a stress case with >= 2 setters. Distinct by program + schedule."),
+             "chan_stress: 1..4 first users (Get) and one Close start together on a fresh lazy channel, 100..1000 fresh channels per case: every Get returns the same non-nil channel and it is closed once Close has returned. "
+             "Non-trivial: every enumerated program; a random case with >= 4 scheduling steps; a stress case with >= 2 setters / getters. Distinct by program + schedule."),
     "assumptions": ["interleavings are enumerated between scheduling points, not between individual memory operations; weak-memory reorderings of the atomics are outside this check",
                     "misuse by the channel contract is not generated: double Chan.Close, Send on a closed Chan, Full concurrently with Send/Recv"],
     "subs": [
@@ -360,6 +361,7 @@ CHECKS["C19"] = {
         {"test": "TestC19Random", "prop": "C19/random", "thorough": 48000, "shards_thorough": 16, "gomaxprocs": 1, "race": True, "thorough_only": True},
         # real goroutines, no director (see harness/signal/stress_test.go): interleavings inside the lock-free fast paths
         {"test": "TestC19Stress", "prop": "C19/stress", "quick": 800, "thorough": 40000, "shards_quick": 4, "shards_thorough": 8},
+        {"test": "TestC19ChanStress", "prop": "C19/chan_stress", "quick": 800, "thorough": 40000, "shards_quick": 4, "shards_thorough": 8},
     ],
     "floors": {"C19/random": {"signal": 0.4, "chan": 0.2, "goroutines_3": 0.3}},
 }
